@@ -109,6 +109,8 @@ def cases(tier, seed, i, n):
                                 yield dict(kind='s2c', cfg=cfg, hseed=rnd.randrange(1 << 30), style=st,
                                            mixed=rnd.random() < 0.5)
         yield gen.mark('all 8x8x2x2 negotiated configurations, both directions')
+        for big in ((20 << 20) + 1, (16 << 20) + 300, 70000000 if tier == 'thorough' else (33 << 20)):
+            yield dict(kind='s2c', cfg=dict(sb=15, cb=15, snct=False, cnct=False, sp=0), hseed=big, style='sync', mixed=False, big=big)
         more = 1500 if tier == 'quick' else 80000
         for _ in range(more):
             cfg = dict(sb=rnd.randint(8, 15), cb=rnd.randint(8, 15), snct=rnd.random() < 0.5,
@@ -246,6 +248,11 @@ def run_s2c(case, acc):
     cfg = case['cfg']
     rnd = random.Random(case['hseed'])
     msgs = history(rnd, cfg['sb'])
+    if case.get('big'):
+        # one message that inflates to tens of MiB from a ~100 KB frame, then ordinary ones: nothing may be cut
+        # off, whatever limit an implementation puts on a single inflate call
+        blk = bytes(range(256)) * 16
+        msgs = [b'first', (blk * (case['big'] // len(blk) + 1))[:case['big']] + b'<END>', b'after the big one', blk]
     peer = deflate_peer.Peer(cfg['sb'], cfg['cb'], cfg['snct'], cfg['cnct'])
     body = b''
     expected = []
